@@ -22,15 +22,23 @@ import (
 )
 
 type countingSrc struct {
-	r *bytes.Reader
-	n int
+	r       *bytes.Reader
+	n       int
+	withEOF bool // report io.EOF together with the last bytes (legal for an io.Reader)
 }
 
 func (c *countingSrc) Read(p []byte) (int, error) {
 	n, err := c.r.Read(p)
 	c.n += n
+	if c.withEOF && err == nil && n > 0 && c.r.Len() == 0 {
+		err = io.EOF
+	}
 	return n, err
 }
+
+// c11LastBox: the tree ends with the preview box whose payload has this size (0 = the ordinary tree), and the
+// source reports EOF together with its last bytes
+var c11LastBox int
 
 var c11XpSizes = []int{-1, 0, 1, 7, 8, 100, 5000}
 var c11PvSizes = []int{-1, 0, 1, 100, 5000, 70000}
@@ -67,6 +75,9 @@ func c11Build(x *mc.Exec, malformed bool) (*c11Tree, string) {
 	}
 	if s := c11PvSizes[x.Choose("preview-size", len(c11PvSizes))]; s >= 0 {
 		parts.Preview = pattern(s, 'p')
+	}
+	if c11LastBox > 0 {
+		parts.Preview = pattern(c11LastBox, 'q')
 	}
 	extra := x.Choose("skeleton-variant", 5)
 	top := gen.CR3(parts, extra)
@@ -200,6 +211,14 @@ func c11Build(x *mc.Exec, malformed bool) (*c11Tree, string) {
 	case 2:
 		top = append(top, &gen.Box{Type: "free", Payload: &gen.Doc{B: make([]byte, 8)}})
 	}
+	if c11LastBox > 0 {
+		for i, b := range top {
+			if b.Type == "uuid" && bytes.Equal(b.UUID, gen.UUIDCr3Preview) {
+				top = top[:i+1]
+				break
+			}
+		}
+	}
 	t := &c11Tree{top: top, rec: rec, parts: parts, degenerate: degenerate, rearranged: rearranged}
 	gen.Walk(top, func(b *gen.Box, d int) {
 		t.all = append(t.all, b)
@@ -257,10 +276,17 @@ func (t *c11Tree) find(typ string, uuid []byte) *gen.Box {
 	return nil
 }
 
-func c11Harness(malformed bool) mc.Harness {
+func c11Harness(malformed bool) mc.Harness { return c11HarnessV(malformed, false) }
+
+func c11HarnessV(malformed, lastBoxEOF bool) mc.Harness {
 	return func(x *mc.Exec) {
 		pristine()
+		c11LastBox = 0
+		if lastBoxEOF {
+			c11LastBox = []int{100, 4095, 4096, 4097, 5000, 8192, 20000, 70000}[x.All("last-box-preview-size", 8)]
+		}
 		t, what := c11Build(x, malformed)
+		c11LastBox = 0
 		eb := x.All("exif-callback", len(c11ExifBeh))
 		xb := x.All("xmp-callback", len(c11XmpBeh))
 		pb := x.All("preview-callback", len(c11PvBeh))
@@ -279,7 +305,7 @@ func c11Harness(malformed bool) mc.Harness {
 			x.Fail("containment|isobmff|"+kind, fmt.Sprintf("%s [%s; callbacks %s/%s/%s; deviations %s]", msg, what, c11ExifBeh[eb], c11XmpBeh[xb], c11PvBeh[pb], x.DevLabels()),
 				map[string]string{"input_hex": hexInput(data), "deviations": x.DevLabels()})
 		}
-		src := &countingSrc{r: bytes.NewReader(data)}
+		src := &countingSrc{r: bytes.NewReader(data), withEOF: lastBoxEOF}
 		br := bufio.NewReaderSize(src, 4096)
 		pos := func() int { return src.n - br.Buffered() }
 		// which top-level box is being processed, and limits for callbacks
@@ -571,6 +597,8 @@ func init() {
 			return []mc.Space{
 				{Name: "well-formed-trees", H: c11Harness(false), Bound: b, Isolate: true,
 					Rule: "canonical CR3 box tree (ftyp, moov{uuid-meta{CNCV,CCTP{CCDT,CCDT},CTBO,free,CMT1-4,THMB},mvhd,trak{tkhd,mdia{mdhd,hdlr}}}, uuid-xpacket, uuid-preview{PRVW}, mdat); deviations: xpacket/preview size menus, skeleton variants (free / unknown top-level box, unknown children, 64-bit uuid sizes), an unknown box (zzzz, uuid with a foreign usertype in 32- and 64-bit form, skip; inside moov also a uuid too short for its usertype and a preview uuid without PRVW) inserted at 7 places x 3 sizes, a trailing 8/16-byte box, any one box in 64-bit size form, ftyp with 0/1/8/9/12/40 compatible brands, a metadata child with content too short for its type (CNCV, CTBO, CMT3, CCTP, THMB; sizes honest) or a CMT block whose first-directory offset is 0, 4 or 7, the CMT boxes in 5 other arrangements (one missing, reordered, duplicated, only CMT4); x both byte orders x 5 Exif / 3 XMP / 3 preview callback behaviours"},
+				{Name: "preview-as-last-box-from-a-source-that-reports-eof-with-its-last-bytes", H: c11HarnessV(false, true), Bound: 0, Isolate: true,
+					Rule: "the tree ending with the preview box (payload 100..70000 bytes, 8 sizes) read from a source that returns io.EOF together with its last bytes x both byte orders x all callback behaviours (ReadFull(Size) reads with one large buffer): the callbacks still see the whole payload"},
 				{Name: "overstated-children", H: c11Harness(true), Bound: b, Isolate: true,
 					Rule: "the same trees with any one box declaring a size off by {+1,+8,-1,-8,+64Ki,+2^31-1,+2^31,+2^32-1,+2^40}, optionally together with its parent (same amount or 64 more) or parent and grandparent (cooperating sites; the top-level box stays honest): no callback and no call may leave the stream beyond the end of the box being handled or of the enclosing top-level box; trivial = no overstatement"},
 			}
